@@ -276,6 +276,11 @@ func handleViolation(t *testing.T, env *ShardEnv, sc *Scenario, w *World, runner
 	return ViolationReport{Property: env.Prop, Signature: small.Signature, Detail: small.Detail, Replay: path, Seed: sc.Seed, OpsBefore: orig, OpsAfter: len(small.Ops)}
 }
 
+func mustJSON(v interface{}) json.RawMessage {
+	b, _ := json.Marshal(v)
+	return b
+}
+
 func writeJSON(path string, v interface{}) error {
 	b, err := json.MarshalIndent(v, "", " ")
 	if err != nil {
